@@ -1,5 +1,6 @@
 //! Construction routes of the 20 validated types (used by C01 and C14).
 
+use std::borrow::Cow;
 use std::str::FromStr;
 
 use crate::engine::Failure;
@@ -45,7 +46,7 @@ macro_rules! rej {
 }
 
 macro_rules! uri_routes {
-	($name:ident, $ty:expr, $T:ty, $TBuf:ty, $Inv:ident) => {
+	($name:ident, $ty:expr, $T:ty, $TBuf:ty, $Inv:ident, $Var:ident) => {
 		pub fn $name(input: &[u8], exp: bool, all: bool) -> Result<u64, Failure> {
 			use iref::uri::$Inv;
 			let ty: Ty = $ty;
@@ -74,6 +75,21 @@ macro_rules! uri_routes {
 			}
 			if all {
 				n += 2;
+				// widening into the family-wide error type must keep the variant and the untouched input
+				if let Err(e) = <$T>::new(input) {
+					n += 1;
+					match iref::uri::UriError::<Cow<[u8]>>::from(e) {
+						iref::uri::UriError::$Var($Inv(Cow::Borrowed(p))) => ensure!(same(p, input), "error-payload:UriError-borrowed", "{} UriError::from(Invalid(&[u8])): payload is not the input", ty.name()),
+						other => ensure!(false, "error-payload:UriError-variant", "{} UriError::from(Invalid(&[u8])) gives {:?}", ty.name(), other),
+					}
+				}
+				if let Err(e) = <$TBuf>::new(input.to_vec()) {
+					n += 1;
+					match iref::uri::UriError::<Cow<[u8]>>::from(e) {
+						iref::uri::UriError::$Var($Inv(Cow::Owned(p))) => ensure!(p == input, "error-payload:UriError-owned", "{} UriError::from(Invalid(Vec<u8>)): payload {} is not the input {}", ty.name(), show(&p), show(input)),
+						other => ensure!(false, "error-payload:UriError-variant", "{} UriError::from(Invalid(Vec<u8>)) gives {:?}", ty.name(), other),
+					}
+				}
 				match <&$T>::try_from(input) {
 					Ok(v) => {
 						acc!("TryFrom<&[u8]>", ty, exp, input);
@@ -96,6 +112,18 @@ macro_rules! uri_routes {
 				}
 				if let Ok(s) = std::str::from_utf8(input) {
 					n += 6;
+					if let Err(e) = <$T>::new(s) {
+						match iref::uri::UriError::<Cow<str>>::from(e) {
+							iref::uri::UriError::$Var($Inv(Cow::Borrowed(p))) => ensure!(same(p.as_bytes(), input), "error-payload:UriError-borrowed-str", "{} UriError::from(Invalid(&str)): payload is not the input", ty.name()),
+							other => ensure!(false, "error-payload:UriError-variant", "{} UriError::from(Invalid(&str)) gives {:?}", ty.name(), other),
+						}
+					}
+					if let Err(e) = <$TBuf>::try_from(s.to_string()) {
+						match iref::uri::UriError::<Cow<str>>::from(e) {
+							iref::uri::UriError::$Var($Inv(Cow::Owned(p))) => ensure!(p.as_bytes() == input, "error-payload:UriError-owned-str", "{} UriError::from(Invalid(String)): payload {} is not the input {}", ty.name(), show(p.as_bytes()), show(input)),
+							other => ensure!(false, "error-payload:UriError-variant", "{} UriError::from(Invalid(String)) gives {:?}", ty.name(), other),
+						}
+					}
 					match <$T>::new(s) {
 						Ok(v) => {
 							acc!("new(&str)", ty, exp, input);
@@ -161,7 +189,7 @@ macro_rules! uri_routes {
 }
 
 macro_rules! iri_routes {
-	($name:ident, $ty:expr, $T:ty, $TBuf:ty, $Inv:ident) => {
+	($name:ident, $ty:expr, $T:ty, $TBuf:ty, $Inv:ident, $Var:ident) => {
 		pub fn $name(s: &str, exp: bool, all: bool) -> Result<u64, Failure> {
 			use iref::iri::$Inv;
 			let ty: Ty = $ty;
@@ -191,6 +219,20 @@ macro_rules! iri_routes {
 			}
 			if all {
 				n += 5;
+				if let Err(e) = <$T>::new(s) {
+					n += 1;
+					match iref::iri::IriError::<Cow<str>>::from(e) {
+						iref::iri::IriError::$Var($Inv(Cow::Borrowed(p))) => ensure!(same(p.as_bytes(), input), "error-payload:IriError-borrowed", "{} IriError::from(Invalid(&str)): payload is not the input", ty.name()),
+						other => ensure!(false, "error-payload:IriError-variant", "{} IriError::from(Invalid(&str)) gives {:?}", ty.name(), other),
+					}
+				}
+				if let Err(e) = <$TBuf>::new(s.to_string()) {
+					n += 1;
+					match iref::iri::IriError::<Cow<str>>::from(e) {
+						iref::iri::IriError::$Var($Inv(Cow::Owned(p))) => ensure!(p.as_bytes() == input, "error-payload:IriError-owned", "{} IriError::from(Invalid(String)): payload {} is not the input {}", ty.name(), show(p.as_bytes()), show(input)),
+						other => ensure!(false, "error-payload:IriError-variant", "{} IriError::from(Invalid(String)) gives {:?}", ty.name(), other),
+					}
+				}
 				match <&$T>::try_from(s) {
 					Ok(v) => {
 						acc!("TryFrom<&str>", ty, exp, input);
@@ -244,27 +286,27 @@ macro_rules! iri_routes {
 	};
 }
 
-uri_routes!(uri, Ty::Uri, iref::Uri, iref::UriBuf, InvalidUri);
-uri_routes!(uri_ref, Ty::UriRef, iref::UriRef, iref::UriRefBuf, InvalidUriRef);
-uri_routes!(u_scheme, Ty::UScheme, iref::uri::Scheme, iref::uri::SchemeBuf, InvalidScheme);
-uri_routes!(u_authority, Ty::UAuthority, iref::uri::Authority, iref::uri::AuthorityBuf, InvalidAuthority);
-uri_routes!(u_userinfo, Ty::UUserInfo, iref::uri::UserInfo, iref::uri::UserInfoBuf, InvalidUserInfo);
-uri_routes!(u_host, Ty::UHost, iref::uri::Host, iref::uri::HostBuf, InvalidHost);
-uri_routes!(u_port, Ty::UPort, iref::uri::Port, iref::uri::PortBuf, InvalidPort);
-uri_routes!(u_path, Ty::UPath, iref::uri::Path, iref::uri::PathBuf, InvalidPath);
-uri_routes!(u_segment, Ty::USegment, iref::uri::Segment, iref::uri::SegmentBuf, InvalidSegment);
-uri_routes!(u_query, Ty::UQuery, iref::uri::Query, iref::uri::QueryBuf, InvalidQuery);
-uri_routes!(u_fragment, Ty::UFragment, iref::uri::Fragment, iref::uri::FragmentBuf, InvalidFragment);
+uri_routes!(uri, Ty::Uri, iref::Uri, iref::UriBuf, InvalidUri, Uri);
+uri_routes!(uri_ref, Ty::UriRef, iref::UriRef, iref::UriRefBuf, InvalidUriRef, Reference);
+uri_routes!(u_scheme, Ty::UScheme, iref::uri::Scheme, iref::uri::SchemeBuf, InvalidScheme, Scheme);
+uri_routes!(u_authority, Ty::UAuthority, iref::uri::Authority, iref::uri::AuthorityBuf, InvalidAuthority, Authority);
+uri_routes!(u_userinfo, Ty::UUserInfo, iref::uri::UserInfo, iref::uri::UserInfoBuf, InvalidUserInfo, UserInfo);
+uri_routes!(u_host, Ty::UHost, iref::uri::Host, iref::uri::HostBuf, InvalidHost, Host);
+uri_routes!(u_port, Ty::UPort, iref::uri::Port, iref::uri::PortBuf, InvalidPort, Port);
+uri_routes!(u_path, Ty::UPath, iref::uri::Path, iref::uri::PathBuf, InvalidPath, Path);
+uri_routes!(u_segment, Ty::USegment, iref::uri::Segment, iref::uri::SegmentBuf, InvalidSegment, PathSegment);
+uri_routes!(u_query, Ty::UQuery, iref::uri::Query, iref::uri::QueryBuf, InvalidQuery, Query);
+uri_routes!(u_fragment, Ty::UFragment, iref::uri::Fragment, iref::uri::FragmentBuf, InvalidFragment, Fragment);
 
-iri_routes!(iri, Ty::Iri, iref::Iri, iref::IriBuf, InvalidIri);
-iri_routes!(iri_ref, Ty::IriRef, iref::IriRef, iref::IriRefBuf, InvalidIriRef);
-iri_routes!(i_authority, Ty::IAuthority, iref::iri::Authority, iref::iri::AuthorityBuf, InvalidAuthority);
-iri_routes!(i_userinfo, Ty::IUserInfo, iref::iri::UserInfo, iref::iri::UserInfoBuf, InvalidUserInfo);
-iri_routes!(i_host, Ty::IHost, iref::iri::Host, iref::iri::HostBuf, InvalidHost);
-iri_routes!(i_path, Ty::IPath, iref::iri::Path, iref::iri::PathBuf, InvalidPath);
-iri_routes!(i_segment, Ty::ISegment, iref::iri::Segment, iref::iri::SegmentBuf, InvalidSegment);
-iri_routes!(i_query, Ty::IQuery, iref::iri::Query, iref::iri::QueryBuf, InvalidQuery);
-iri_routes!(i_fragment, Ty::IFragment, iref::iri::Fragment, iref::iri::FragmentBuf, InvalidFragment);
+iri_routes!(iri, Ty::Iri, iref::Iri, iref::IriBuf, InvalidIri, Iri);
+iri_routes!(iri_ref, Ty::IriRef, iref::IriRef, iref::IriRefBuf, InvalidIriRef, Reference);
+iri_routes!(i_authority, Ty::IAuthority, iref::iri::Authority, iref::iri::AuthorityBuf, InvalidAuthority, Authority);
+iri_routes!(i_userinfo, Ty::IUserInfo, iref::iri::UserInfo, iref::iri::UserInfoBuf, InvalidUserInfo, UserInfo);
+iri_routes!(i_host, Ty::IHost, iref::iri::Host, iref::iri::HostBuf, InvalidHost, Host);
+iri_routes!(i_path, Ty::IPath, iref::iri::Path, iref::iri::PathBuf, InvalidPath, Path);
+iri_routes!(i_segment, Ty::ISegment, iref::iri::Segment, iref::iri::SegmentBuf, InvalidSegment, PathSegment);
+iri_routes!(i_query, Ty::IQuery, iref::iri::Query, iref::iri::QueryBuf, InvalidQuery, Query);
+iri_routes!(i_fragment, Ty::IFragment, iref::iri::Fragment, iref::iri::FragmentBuf, InvalidFragment, Fragment);
 
 /// from-bytes constructors of the IRI family (`IriBuf::from_vec`, `IriRefBuf::from_vec`).
 pub fn iri_from_vec(ty: Ty, input: &[u8], exp: bool) -> Result<u64, Failure> {
